@@ -63,7 +63,7 @@ func (a *Allocator) Allocate(hint net.IPNet) (ret net.IPNet, err error) {
 	// Try to allocate the requested prefix
 	a.l.Lock()
 	defer a.l.Unlock()
-	if hint.IP.To16() != nil && a.containing.Contains(hint.IP) {
+	if a.contains(hint.IP) {
 		idx, hintErr := a.toIndex(hint.IP)
 		if hintErr == nil && !a.bitmap.Test(idx) {
 			a.bitmap.Set(idx)
@@ -88,10 +88,27 @@ func (a *Allocator) Allocate(hint net.IPNet) (ret net.IPNet, err error) {
 	return
 }
 
+// contains reports whether the 16-byte address ip lies in the pool.
+// net.IPNet.Contains cannot be used for this: it reads ::ffff:a.b.c.d as the IPv4
+// address a.b.c.d, which no IPv6 network contains, so the blocks of a pool
+// covering ::ffff:0:0/96 could neither be named in a hint nor be freed
+func (a *Allocator) contains(ip net.IP) bool {
+	pool := a.containing
+	if len(ip) != net.IPv6len || len(pool.IP) != net.IPv6len || len(pool.Mask) != net.IPv6len {
+		return false
+	}
+	for i := range ip {
+		if ip[i]&pool.Mask[i] != pool.IP[i]&pool.Mask[i] {
+			return false
+		}
+	}
+	return true
+}
+
 // Free returns the given prefix to the available pool if it was taken.
 func (a *Allocator) Free(prefix net.IPNet) error {
 	base := prefix.IP.Mask(prefix.Mask)
-	if !a.containing.Contains(base) {
+	if !a.contains(base) {
 		// Offset() is an absolute distance: without this check a prefix k
 		// blocks below the pool would release block k of the pool
 		return fmt.Errorf("Could not find prefix in pool: %s is outside of %s", prefix.String(), a.containing.String())
